@@ -370,6 +370,53 @@ func runC07(env *lib.Env, rep *lib.Report) {
 		}
 		rep.Bounds["large BIGINT family"] = fmt.Sprintf("%d one- and two-row tables over values around 2^52..2^53 (both signs), AVG with and without GROUP BY", len(sets))
 	}
+	// grouping by a BOOLEAN and by a BIGINT column (NULLs included): every multiset of <= 3 rows over
+	// f in {true, false, NULL} x g in {1, 2^40} in every row order
+	if env.Shard == 2%env.NShards {
+		var fbUniverse [][]any
+		for _, f := range []any{true, false, nil} {
+			for _, g := range []any{int64(1), int64(1) << 40} {
+				fbUniverse = append(fbUniverse, []any{f, g})
+			}
+		}
+		var fbSets [][][]any
+		var recF func(start int, cur [][]any)
+		recF = func(start int, cur [][]any) {
+			if len(cur) > 0 {
+				fbSets = append(fbSets, append([][]any{}, cur...))
+			}
+			if len(cur) == 3 {
+				return
+			}
+			for i := start; i < len(fbUniverse); i++ {
+				recF(i, append(cur, append(append([]any{}, fbUniverse[i]...), int64(len(cur)+1))))
+			}
+		}
+		recF(0, nil)
+		fbFrom := []qJoin{{table: "tf"}}
+		fbQueries := []*qQuery{
+			{items: []qItem{{kind: "col", col: qRef{"", "f"}}, {kind: "count*"}}, from: fbFrom, groupBy: []qRef{{"", "f"}}, limit: -1, offset: -1},
+			{items: []qItem{{kind: "count", col: qRef{"", "v"}}, {kind: "col", col: qRef{"", "g"}}}, from: fbFrom, groupBy: []qRef{{"", "g"}}, limit: -1, offset: -1},
+			{items: []qItem{{kind: "col", col: qRef{"", "f"}}, {kind: "col", col: qRef{"", "g"}}, {kind: "count*"}, {kind: "avg", col: qRef{"", "v"}}}, from: fbFrom, groupBy: []qRef{{"", "f"}, {"", "g"}}, limit: -1, offset: -1},
+			{items: []qItem{{kind: "col", col: qRef{"", "g"}}, {kind: "col", col: qRef{"", "f"}, alias: "x"}}, from: fbFrom, groupBy: []qRef{{"", "g"}, {"", "x"}}, limit: -1, offset: -1},
+		}
+		for _, ms := range fbSets {
+			permutations(ms, func(rows [][]any) {
+				worlds++
+				x := lib.RunOnce(func(c *lib.Ctx) {
+					qw := newQWorld(c, []*qTable{{name: "tf", cols: []mCol{{"f", "boolean"}, {"g", "bigint"}, {"v", "int"}}, rows: rows}})
+					defer qw.w.destroy()
+					for _, q := range fbQueries {
+						r.check(qw, q, "group-by/boolean-bigint", "")
+					}
+				}, nil)
+				if x.Fail != nil {
+					rep.AddFailure(x.Fail)
+				}
+			})
+		}
+		rep.Bounds["boolean / bigint grouping family"] = fmt.Sprintf("%d multisets of <= 3 rows over f in {true,false,NULL} x g in {1,2^40}, every row order, 4 GROUP BY queries", len(fbSets))
+	}
 	rep.Bounds["varchar grouping family"] = "every multiset of <= 3 rows over s in {NULL, '', 'a', '<nil>', '0:|'} in every row order, 4 GROUP BY queries"
 	rep.Bounds["databases built (this shard)"] = worlds
 	rep.Bounds["queries executed (this shard)"] = r.nQuery
